@@ -525,17 +525,31 @@ def result_keys(fn):
 
 
 def generate_reentrant(seed, count):
-    """core histories in which some constructors / decorators call Invoke on
-    the container from inside their own body (harness field `nested`): the
-    nested function asks for one of the body's own results, for something an
-    existing consumer of the history asks for, or both.  The model has no
-    re-entrant user code: these histories are only run through the checker on
-    the implementation's trace."""
+    """core histories in which some constructors / decorators / invoked
+    functions call Invoke on the container from inside their own body (harness
+    field `nested`): the nested function asks for one of the body's own
+    results, for something an existing consumer of the history asks for, for a
+    result of an unrelated registered function (fills caches the outer Invoke
+    meets later), or a mix.  Nested functions may fail or panic themselves, may
+    be called on the second execution of a body whose first execution failed,
+    and may nest a further Invoke.  The model (ResolveRe / RunRe) runs them
+    through the `nest` oracle emitted by emit.nest_table."""
     rng = random.Random(f"reentrant:{seed}")
     prof = profile("singleton")
     prof["_name"] = "reentrant"
     prof.update(p_fault=0.05, w_invoke=8, n_types=4, p_dry=0.0)
     out = []
+
+    def ask(r):
+        """a parameter list asking for result leaf r (named singles and groups need a dig.In field)"""
+        if r["k"] == "single":
+            t = rng.choice(r.get("as") or [r["ty"]]) if rng.random() < 0.3 else r["ty"]
+            leaf = dict(k="single", ty=t, name=r.get("name", 0), opt=rng.random() < 0.15)
+            if leaf["name"] or leaf["opt"] or rng.random() < 0.2:
+                return [dict(k="obj", fields=[leaf])]
+            return [leaf]
+        return [dict(k="obj", fields=[dict(k="group", ty=r["ty"], group=r["group"], soft=rng.random() < 0.3)])]
+
     for i in range(count):
         g = Gen(rng, prof)
         c = g.gen_case(f"reentrant-{seed}-{i}")
@@ -547,27 +561,55 @@ def generate_reentrant(seed, count):
         if not reg:
             out.append(c)
             continue
-        for fid in rng.sample(reg, min(len(reg), rng.randint(1, 3))):
+        hosts = rng.sample(reg, min(len(reg), rng.randint(1, 3)))
+        if inv and rng.random() < 0.4:
+            hosts.append(rng.choice(inv))
+        fresh = []
+        for fid in hosts:
             f = fns[fid]
-            params = []
-            own = result_keys(f)
-            mode = rng.random()
-            if own and mode < 0.7:
-                r = rng.choice(own)
-                if r["k"] == "single":
-                    t = rng.choice(r.get("as") or [r["ty"]]) if rng.random() < 0.3 else r["ty"]
-                    params.append(dict(k="single", ty=t, name=r.get("name", 0), opt=False))
-                else:
-                    params.append(dict(k="obj", fields=[dict(k="group", ty=r["ty"], group=r["group"], soft=rng.random() < 0.3)]))
-            if inv and (mode >= 0.4 or not params):
-                src = fns[rng.choice(inv)]
-                params += copy.deepcopy(src["params"])[:2]
-            if not params:
-                continue
-            fns[nid] = dict(id=nid, params=params, results=[], err=False)
-            c["fns"].append(fns[nid])
-            f.setdefault("nested", []).append(dict(exec=0 if rng.random() < 0.8 else 1, scope=rng.randrange(nsc), fn=nid))
-            nid += 1
+            ex = 0 if rng.random() < 0.75 else 1
+            if ex == 1 and rng.random() < 0.6:
+                # the first execution fails, the requests come from the second one
+                plan = list(f.get("plan") or [])
+                plan += ["ok"] * (3 - len(plan))
+                plan[0] = "err" if f.get("err") and rng.random() < 0.6 else "panic"
+                f["plan"] = plan
+            for _ in range(1 if rng.random() < 0.75 else 2):
+                params = []
+                own = result_keys(f)
+                mode = rng.random()
+                if own and mode < 0.6:
+                    params += ask(rng.choice(own))
+                if inv and (0.35 <= mode < 0.8 or not params):
+                    src = fns[rng.choice(inv)]
+                    params += copy.deepcopy(src["params"])[:2]
+                if mode >= 0.7 or not params:
+                    other = result_keys(fns[rng.choice(reg)])
+                    if other:
+                        params += ask(rng.choice(other))
+                if not params:
+                    continue
+                nf = dict(id=nid, params=params, results=[], err=rng.random() < 0.3)
+                x = rng.random()
+                if x < 0.08:
+                    nf["plan"] = ["panic"]
+                elif x < 0.16 and nf["err"]:
+                    nf["plan"] = ["err"]
+                fns[nid] = nf
+                c["fns"].append(nf)
+                fresh.append(nid)
+                f.setdefault("nested", []).append(dict(exec=ex, scope=rng.randrange(nsc), fn=nid))
+                nid += 1
+        # a nested function whose own body nests a further Invoke
+        if fresh and rng.random() < 0.25:
+            host = fns[rng.choice(fresh)]
+            other = result_keys(fns[rng.choice(reg)])
+            params = ask(rng.choice(other)) if other else []
+            if params:
+                fns[nid] = dict(id=nid, params=params, results=[], err=False)
+                c["fns"].append(fns[nid])
+                host.setdefault("nested", []).append(dict(exec=0, scope=rng.randrange(nsc), fn=nid))
+                nid += 1
         out.append(c)
     return out
 
